@@ -169,8 +169,14 @@ def run_group(verif, repo, group, pid, tier, scratch):
         return h, parse_kani(out).get(h["name"]), out[-600:]
 
     import concurrent.futures as cf
+    # harnesses marked "exclusive" need most of the machine's memory (CBMC > 20 GB): they run one at a time,
+    # after the others (run in parallel they were killed for lack of memory and came out UNDETERMINED)
+    par = [h for h in hs if not h.get("exclusive")]
+    seq = [h for h in hs if h.get("exclusive")]
     with cf.ThreadPoolExecutor(max_workers=jobs) as ex:
-        outs = list(ex.map(one, hs))
+        outs = list(ex.map(one, par))
+    for h in seq:
+        outs.append(one(h))
     res["wall_s"] = time.time() - t0
     for h, pr, tail in outs:
         row = {"name": h["name"], "label": h["label"], "kind": h.get("kind", "proof"), "result": "MISSING"}
